@@ -160,6 +160,7 @@ func race2Run(e *eng, rounds int) string {
 		}()
 		return rec.Result()
 	}
+	condFail := ""
 	cond := func(path string, body []byte) bool {
 		for try := 0; try < 200; try++ {
 			tag := do("GET", path, "", "", nil).Header.Get("Etag")
@@ -170,7 +171,10 @@ func race2Run(e *eng, rounds int) string {
 			if st/100 == 2 {
 				return true
 			}
-			if st != http.StatusPreconditionFailed {
+			// 412: the tag was stale at the handler's first phase; 500: the file changed between its two phases
+			// (ErrTagMismatch from the locked second phase): either way not acknowledged, try again
+			if st != http.StatusPreconditionFailed && st != http.StatusInternalServerError {
+				condFail = fmt.Sprintf("%s-answered-%d", path, st)
 				return false
 			}
 		}
@@ -250,7 +254,7 @@ func race2Run(e *eng, rounds int) string {
 			return fmt.Sprintf("bad:round-%d-%s", round, torn)
 		}
 		if !okP || !okK || !okA || !okD {
-			return fmt.Sprintf("env:round-%d-not-all-acknowledged-%v-%v-%v-%v", round, okP, okK, okA, okD)
+			return fmt.Sprintf("env:round-%d-not-all-acknowledged-%v-%v-%v-%v-%s", round, okP, okK, okA, okD, condFail)
 		}
 		b, err := os.ReadFile(filepath.Join(gdir, "grpR.json"))
 		if err != nil {
@@ -265,9 +269,12 @@ func race2Run(e *eng, rounds int) string {
 			Type string `json:"type"`
 			Key  string `json:"key"`
 		}
-		json.Unmarshal(d.Users["usrBob"].Password, &gotPw)
+		if json.Unmarshal(d.Users["usrBob"].Password, &gotPw) != nil {
+			// a plain password is stored as a bare string
+			json.Unmarshal(d.Users["usrBob"].Password, &gotPw.Key)
+		}
 		if gotPw.Key != pw {
-			lost = append(lost, "password-of-usrBob")
+			lost = append(lost, "password-of-usrBob(stored:"+esc(string(d.Users["usrBob"].Password))+")")
 		}
 		var gotPerm []string
 		json.Unmarshal(d.Users["usrAna"].Permissions, &gotPerm)
